@@ -88,7 +88,7 @@ func Gen(t *rapid.T, dir string, sizes []int) Spec {
 		}
 		nt := rapid.IntRange(0, 2).Draw(t, "ntrailer")
 		for i := 0; i < nt; i++ {
-			b.Trailer = append(b.Trailer, prog.KV{K: fmt.Sprintf("X-T%d", i), V: rapid.StringMatching("[a-z0-9 ,;]{0,12}[a-z0-9]").Draw(t, "tv")})
+			b.Trailer = append(b.Trailer, prog.KV{K: fmt.Sprintf("X-T%d", i), V: rapid.StringMatching("[a-z0-9]([a-z0-9 ,;]{0,10}[a-z0-9])?").Draw(t, "tv")})
 		}
 		b.Knobs = refwire.Knobs{
 			LowerHex: rapid.Bool().Draw(t, "lowerhex"), PadBase64: rapid.Bool().Draw(t, "pad"),
